@@ -500,7 +500,7 @@ def run(tier: str, only=None) -> core.Result:
         {"part": "misc", "input": build_init("\u0662\u0660\u0662\u0665-\u0660\u0666-\u0661\u0668", ABSENT)},
         {"part": "misc", "input": build_init(ABSENT, ABSENT, "no-params")},
         {"part": "pairing", "client_supported": ["2099-01-01", "2025-03-26"], "preferred": "bogus"},
-    ] + res.coverage.get("samples", [])[:2]
+    ]
     res.coverage["rule"] = (
         "requested protocolVersion = " + (
             "every real calendar date of 2023, 2024, 2026, 2027 and all 10^4 strings 2025-dd-dd"
